@@ -127,6 +127,42 @@ def gen_pres(rng, allow_iso):
     return [k]
 
 
+_TRANSITIONS = {}
+
+
+def fall_back_transitions(zone):
+    """[(T_us, shift_us)]: UTC instants at which the zone's offset drops (a
+    wall-clock hour is repeated), found by scanning a few years."""
+    if zone not in _TRANSITIONS:
+        z = zoneinfo.ZoneInfo(zone)
+        out = []
+        for year in (1999, 2021, 2030):
+            t = _dt.datetime(year, 1, 1, tzinfo=UTC)
+            prev = t.astimezone(z).utcoffset()
+            for _h in range(366 * 24 * 2):
+                t2 = t + _dt.timedelta(minutes=30)
+                off = t2.astimezone(z).utcoffset()
+                if off < prev:
+                    out.append((to_us(t2.replace(tzinfo=None)),
+                                (prev - off) // US))
+                prev = off
+                t = t2
+        _TRANSITIONS[zone] = out
+    return _TRANSITIONS[zone]
+
+
+def fold_pair(rng):
+    """Two instants with the same wall-clock reading in a named zone (fold 0
+    and fold 1)."""
+    zones = [z for z in ZONES if fall_back_transitions(z)]
+    zone = rng.choice(zones)
+    t, shift = rng.choice(fall_back_transitions(zone))
+    u = t - rng.randrange(1, shift)
+    u -= u % 10 ** 6
+    u += rng.choice((0, 0, 1, 500000))
+    return zone, u, u + shift
+
+
 def gen_seconds(rng):
     c = rng.random()
     if c < 0.35:
@@ -181,7 +217,8 @@ class C12(Check):
     PROBES = ('comparison_at_exact_boundary', 'comparison_one_us_off',
               'override_active_query', 'unoverridden_query',
               'fixture_cleanup_clears', 'iso_string_argument',
-              'named_zone_argument', 'leap_second_capped')
+              'named_zone_argument', 'leap_second_capped',
+              'same_wall_time_both_folds')
 
     def setup(self):
         core.import_sut()
@@ -230,6 +267,21 @@ class C12(Check):
                             gen_pres(rng, False) if op != 'marshall'
                             else rng.choice((['naive'], ['fixed', 0],
                                              ['zone', 'UTC']))])
+        if rng.random() < 0.2:
+            # the same wall-clock reading twice (DST fall-back): answers must
+            # not be carried over from one call to the next
+            zone, u1, u2 = fold_pair(rng)
+            if rng.random() < 0.5:
+                u1, u2 = u2, u1
+            pos = rng.randint(0, len(ops))
+            which = rng.choice(('normalize', 'normalize', 'cmp_abs'))
+            for u in (u2, u1):
+                if which == 'normalize':
+                    ops.insert(pos, ['normalize', u, ['zone', zone]])
+                else:
+                    ops.insert(pos, ['cmp_abs', rng.choice(
+                        ('older', 'newer', 'soon')), u, gen_seconds(rng),
+                        ['zone', zone]])
         if rng.random() < 0.75:
             ops.insert(0, ['set', interesting_instant(rng)])
         crng = st('clock')
@@ -467,15 +519,38 @@ class C12(Check):
                                  (s > 0) - (s < 0),
                                  pres[1] if len(pres) > 1 and
                                  pres[0] == 'zone' else None)})
+        if name == 'cmp_abs':
+            which, t_us, sec, pres = op[1], op[2], op[3], op[4]
+            s_us = seconds_to_us(sec)
+            now_guess = model if model is not None else clock.t
+            if not (MIN_US <= now_guess + s_us <= MAX_US) or \
+                    not (MIN_US <= now_guess - s_us <= MAX_US):
+                return 'skip', None
+            arg = present(t_us, pres)
+            if which == 'older':
+                got = tu.is_older_than(arg, sec)
+                cmp_ = lambda now: now - t_us > s_us       # noqa: E731
+            elif which == 'newer':
+                got = tu.is_newer_than(arg, sec)
+                cmp_ = lambda now: t_us - now > s_us       # noqa: E731
+            else:
+                got = tu.is_soon(arg, sec)
+                cmp_ = lambda now: t_us <= now + s_us      # noqa: E731
+            return 'q', (got, lambda now: (got is cmp_(now), cmp_(now)),
+                         {'probes': ['same_wall_time_both_folds'],
+                          'pk': 'zone-fold', 'bc': which})
         # pure clauses ----------------------------------------------------
         if name == 'normalize':
             x = present(op[1], op[2])
             got = tu.normalize_time(x)
             want = from_us(op[1])
+            folded = getattr(x, 'fold', 0) == 1
             ok = got == want and got.tzinfo is None
             if op[2][0] == 'naive':
                 ok = ok and got == x
-            return 'q', (got, lambda now: (ok, want), {'pk': op[2][0]})
+            return 'q', (got, lambda now: (ok, want), {
+                'pk': op[2][0], 'probes': ['same_wall_time_both_folds']
+                if folded else []})
         if name == 'isoparse':
             x = present(op[1], op[2] if op[2][0] != 'zone' else ['fixed', 0])
             got = tu.parse_isotime(x.isoformat())
